@@ -73,6 +73,13 @@ def mk_rl(dt, seq, via="from_array"):
     n = len(a)
     if via == "from_array" or n < 2:
         return RunLengthArray.from_array(a)
+    if via in ("derived", "derived2"):             # a result of a ufunc on another array: it shares that array's boundary object
+        src = RunLengthArray.from_array(a)
+        _SOURCES.append((src, snap(src)))
+        d = np.positive(src) if a.dtype != bool else np.logical_or(src, False)
+        if via == "derived2":
+            d = d[...]
+        return d
     if via == "concat2":
         k = n // 2
         return np.concatenate([RunLengthArray.from_array(a[:k]), RunLengthArray.from_array(a[k:])])
@@ -97,7 +104,14 @@ def mk_rl(dt, seq, via="from_array"):
     raise ValueError(via)
 
 
-RL_VIAS = ["from_array", "concat2", "concat3", "pieces", "ufunc", "astype"]
+RL_VIAS = ["from_array", "concat2", "concat3", "pieces", "ufunc", "astype", "derived"]
+_SOURCES = []
+
+
+def sources_unchanged():
+    ok = all(snap(src) == before for src, before in _SOURCES)
+    del _SOURCES[:]
+    return ok
 
 
 _VIA = ["from_array"]
@@ -180,7 +194,7 @@ def op_getitem(c, o):
     elif k == "mask":
         res = r[np.array(idx[1], dtype=bool)]
     elif k == "rlmask":
-        res = r[RunLengthArray.from_array(np.array(idx[1], dtype=bool))]
+        res = r[mk_rl("b1", idx[1], o.get("maskvia", "from_array"))]
     elif k == "slice":
         res = r[py_sel(idx)]
     elif k == "windows":
@@ -201,6 +215,10 @@ def op_ufunc(c, o):
     a = py_operand(x)
     args = [a] if y[0] == "none" else [a, py_operand(y)]
     _VIA[0] = "from_array"
+    if o.get("share") and len(args) == 2 and all(isinstance(v, RunLengthArray) for v in args) \
+            and len(args[0]._events) == len(args[1]._events) and np.array_equal(args[0]._events, args[1]._events):
+        # the second operand as an array DERIVED from the first (what ufunc results are): same boundary object, its own values
+        args[1] = RunLengthArray(args[0]._events, args[1]._values)
     before = [snap(v) for v in args]
     how = o.get("how", "ufunc")
     import operator as _op
@@ -319,8 +337,12 @@ OPS = {"rl_roundtrip": op_roundtrip, "rl_getitem": op_getitem, "rl_ufunc": op_uf
 
 def execute(case, opts=None):
     o = opts or {}
+    del _SOURCES[:]
     try:
-        return OPS[case[0]](case, o)
+        out = OPS[case[0]](case, o)
+        if not sources_unchanged():
+            return ["mutated", "an array the operand was derived from changed"]
+        return out
     except AssertionError:
         return ["raised", "AssertionError"]
     except Exception as e:
